@@ -39,6 +39,10 @@ func init() {
 				c07IdentitySpellings(o, r, cs)
 				continue
 			}
+			if r.Intn(8) == 0 {
+				c07Lists(o, r, cs)
+				continue
+			}
 			f := allFeat()
 			f.Adversarial = r.Intn(3) == 0
 			t := genTree(r, f)
@@ -228,6 +232,96 @@ func c07IdentitySpellings(o *oracleRun, r *rand.Rand, cs int64) {
 		if kind == "" || name == "" {
 			o.fail("missing-kind-or-name", "output resource without kind or name ("+what+")", cs, input, d, nil)
 		}
+	}
+}
+
+// c07Lists: resource files made of `*List` wrappers — plain and typed, nested in one another to depth 3, beside plain
+// documents, in multi-document files.  The build either rejects the file or emits every leaf as a resource of its own
+// (kind and name present, ids unique), and the output is a fixpoint of a directive-free build.
+func c07Lists(o *oracleRun, r *rand.Rand, cs int64) {
+	n := 0
+	var gen func(depth int, indent string) string
+	leaf := func(indent string) string {
+		n++
+		return fmt.Sprintf("%sapiVersion: v1\n%skind: ConfigMap\n%smetadata:\n%s  name: leaf%d\n%sdata:\n%s  k: v%d\n", indent, indent, indent, indent, n, indent, indent, n)
+	}
+	gen = func(depth int, indent string) string {
+		if depth == 0 || r.Intn(3) == 0 {
+			return leaf(indent)
+		}
+		kind := pickS(r, []string{"List", "ConfigMapList", "List"})
+		k := r.Intn(4)
+		if k == 0 {
+			return fmt.Sprintf("%sapiVersion: v1\n%skind: %s\n%sitems: []\n", indent, indent, kind, indent)
+		}
+		var sb strings.Builder
+		fmt.Fprintf(&sb, "%sapiVersion: v1\n%skind: %s\n", indent, indent, kind)
+		if r.Intn(3) == 0 {
+			fmt.Fprintf(&sb, "%smetadata: {}\n", indent)
+		}
+		fmt.Fprintf(&sb, "%sitems:\n", indent)
+		for i := 0; i < k; i++ {
+			item := gen(depth-1, indent+"  ")
+			// first line of the item carries the dash
+			sb.WriteString(indent + "- " + strings.TrimPrefix(item, indent+"  "))
+		}
+		return sb.String()
+	}
+	var docs []string
+	for i := 1 + r.Intn(3); i > 0; i-- {
+		docs = append(docs, gen(1+r.Intn(3), ""))
+	}
+	res := strings.Join(docs, "---\n")
+	k := "resources:\n- res.yaml\n" + pickS(r, []string{"", "namePrefix: p-\n", "commonLabels:\n  a: b\n", "sortOptions:\n  order: fifo\n"})
+	fs := filesys.MakeFsInMemory()
+	fs.MkdirAll("/w")
+	fs.WriteFile("/w/res.yaml", []byte(res))
+	fs.WriteFile("/w/kustomization.yaml", []byte(k))
+	input := map[string]string{"/w/res.yaml": res, "/w/kustomization.yaml": k}
+	out, err, pnc := safeBuild(func() (string, error) { return runBuild(fs, "/w", nil) })
+	if pnc != nil {
+		o.note("lists-panic", input)
+		return
+	}
+	if err != nil {
+		o.note("lists-rejected", input)
+		return
+	}
+	o.note("lists-ok", input)
+	outDocs, perr := parseDocs(out)
+	if perr != nil {
+		o.fail("output-unparsable", "emitted YAML does not parse: "+perr.Error(), cs, input, out, nil)
+		return
+	}
+	ids := map[string]bool{}
+	for _, d := range outDocs {
+		kind, _ := d["kind"].(string)
+		md, _ := d["metadata"].(map[string]interface{})
+		name, _ := md["name"].(string)
+		if kind == "" || name == "" {
+			o.fail("missing-kind-or-name", "output document without kind or name (an unexpanded list wrapper?)", cs, input, d, nil)
+		}
+		if strings.HasSuffix(kind, "List") {
+			o.fail("list-wrapper-emitted", "a *List wrapper is emitted as a resource", cs, input, d, nil)
+		}
+		id := idOf(d)
+		if ids[id] {
+			o.fail("duplicate-id", "two output resources share an id: "+id, cs, input, id, nil)
+		}
+		ids[id] = true
+	}
+	if len(outDocs) != n {
+		o.fail("resource-count", fmt.Sprintf("%d leaves in the input, %d documents in the output", n, len(outDocs)), cs, input, len(outDocs), n)
+	}
+	fs2 := filesys.MakeFsInMemory()
+	fs2.MkdirAll("/f")
+	fs2.WriteFile("/f/out.yaml", []byte(out))
+	fs2.WriteFile("/f/kustomization.yaml", []byte("resources:\n- out.yaml\n"+pickS(r, []string{"", "sortOptions:\n  order: fifo\n"})))
+	out2, err2, _ := safeBuild(func() (string, error) { return runBuild(fs2, "/f", nil) })
+	if err2 != nil {
+		o.fail("rebuild-fails", "building the emitted output fails: "+err2.Error(), cs, input, nil, nil)
+	} else if d1, _ := parseDocs(out2); len(d1) != len(outDocs) {
+		o.fail("rebuild-differs-objects", "the rebuilt output has another number of documents", cs, input, len(d1), len(outDocs))
 	}
 }
 
